@@ -122,7 +122,9 @@ Record var := mkVar {
   v_tsf : nat;               (* timeStepFactor *)
   v_flags : list bool;       (* f_cvc_active of each component *)
   v_pending : list bool;     (* colvar::cvc_flags: set by set_cvc_flags, applied at the next evaluation; [] = none *)
-  v_coeff : list Z           (* componentCoeff of each component *)
+  v_coeff : list Z;          (* componentCoeff of each component *)
+  v_exp : list nat;          (* componentExp of each component (absent entries = 1): polynomial combination *)
+  v_scripted : bool          (* scriptedFunction: the value is a user function of ALL component values (here: their sum) *)
 }.
 
 Record bias := mkBias {
@@ -148,7 +150,7 @@ Definition any_true (l : list bool) : bool := existsb (fun b => b) l.
 Definition update_flags (v : var) : var :=
   match v_pending v with
   | [] => v
-  | p => mkVar (v_tsf v) p (if any_true p then [] else p) (v_coeff v)
+  | p => mkVar (v_tsf v) p (if any_true p then [] else p) (v_coeff v) (v_exp v) (v_scripted v)
   end.
 (* "ERROR: All CVCs are disabled" *)
 Definition flags_error (v : var) : bool :=
@@ -156,7 +158,7 @@ Definition flags_error (v : var) : bool :=
 
 (* colvar::set_cvc_flags (script command cvcflags): refused unless one flag per component *)
 Definition set_flags (v : var) (p : list bool) : var :=
-  if Nat.eqb (length p) (length (v_flags v)) then mkVar (v_tsf v) (v_flags v) p (v_coeff v) else v.
+  if Nat.eqb (length p) (length (v_flags v)) then mkVar (v_tsf v) (v_flags v) p (v_coeff v) (v_exp v) (v_scripted v) else v.
 
 (* the variables as calc_colvars sees them at step t: flags of the active ones updated *)
 Definition prep_var (t : nat) (v : var) : var := if awake (v_tsf v) t then update_flags v else v.
@@ -179,7 +181,7 @@ Definition var_items (p : nat * var) : list (nat * nat) :=
   map (pair (fst p)) (seq 0 (count_true (v_flags (snd p)))).
 Definition build_items (avs : list (nat * var)) : list (nat * nat) := flat_map var_items avs.
 
-Definition flags_of (vs : list var) (v : nat) : list bool := v_flags (nth v vs (mkVar 0 [] [] [])).
+Definition flags_of (vs : list var) (v : nat) : list bool := v_flags (nth v vs (mkVar 0 [] [] [] [] false)).
 
 (* calc_component_smp(i) = colvars_smp[i]->calc_cvcs(colvars_smp_items[i], 1): the (variable, component) pairs it evaluates *)
 Definition item_evaluates (vs : list var) (it : nat * nat) : list (nat * nat) :=
@@ -231,11 +233,17 @@ Definition zsum (l : list Z) : Z := fold_left Z.add l 0.
 Definition comp_item (p : nat * nat) : sitem :=
   mkItem [LIn (fst p) (snd p)] [LCvc (fst p) (snd p)] (fun s _ => s (LIn (fst p) (snd p))).
 
-(* collect_cvc_data of variable v: x = sum over the enabled components of sup_coeff * value *)
+(* collect_cvc_data of variable v: x = sum over the enabled components of sup_coeff * value^sup_np
+   (colvar::collect_cvc_values, scalar branch: integer_power when sup_np != 1) *)
 Definition collect_item (p : nat * var) : sitem :=
   let v := fst p in let en := enabled (v_flags (snd p)) in
-  mkItem (map (LCvc v) en) [LX v]
-         (fun s _ => zsum (map (fun c => nth c (v_coeff (snd p)) 1 * s (LCvc v c)) en)).
+  if v_scripted (snd p)
+  then (* colvar::collect_cvc_values, scripted branch: run_colvar_callback(scripted_function, sorted_cvc_values, x) where
+          sorted_cvc_values holds EVERY component, enabled or not (a disabled one contributes the value of its last evaluation) *)
+       let all := seq 0 (length (v_flags (snd p))) in
+       mkItem (map (LCvc v) all) [LX v] (fun s _ => zsum (map (fun c => s (LCvc v c)) all))
+  else mkItem (map (LCvc v) en) [LX v]
+         (fun s _ => zsum (map (fun c => nth c (v_coeff (snd p)) 1 * Z.pow (s (LCvc v c)) (Z.of_nat (nth c (v_exp (snd p)) 1%nat))) en)).
 
 (* harmonic bias b: update() reads its variables' values, writes its own energy and colvar_forces.
    LBiasE holds k * sum (x - c)^2 = twice the energy (kept integral) *)
@@ -486,3 +494,43 @@ Fixpoint valid_trace (tr : list mop) (inflight : list nat) : Prop :=
 Definition wr_order (tr : list mop) : list nat := flat_map (fun o => match o with Wr i => [i] | Rd _ => [] end) tr.
 (* what one thread does with its queue of items *)
 Definition thread_mops (q : list nat) : list mop := flat_map (fun i => [Rd i; Wr i]) q.
+
+(* ------------------------------------------------------------------------------------------- *)
+(* 12. Which loop runs where: SMP mode, biases that need the main thread, OpenMP static schedule  *)
+(* ------------------------------------------------------------------------------------------- *)
+Local Open Scope nat_scope.
+(* colvarproxy_smp::smp_mode_t, configuration keyword `smp`: cvcs (also on/yes, the default) | inner_loop | anything else = none *)
+Inductive smp_mode := ModeCvcs | ModeInner | ModeNone.
+(* calc_colvars: `if (proxy->get_smp_mode() == smp_mode_t::cvcs)` the item list and the parallel loop, else variable by variable *)
+Definition parallel_cvc_loop (m : smp_mode) : bool := match m with ModeCvcs => true | _ => false end.
+
+(* the bias kinds and what colvarbias::replica_share_freq() returns for them: only metadynamics (replicaUpdateFrequency, set
+   when multipleReplicas is on) and ABF (sharedFreq) override the base class, which returns 0 *)
+Inductive bias_kind :=
+| KHarmonic | KWalls | KLinear | KHistogram | KHistRestraint | KAbmd | KAlb | KOpes
+| KMeta (multiple_replicas : bool) (replica_update_freq : nat)
+| KAbf (shared_freq : nat).
+Definition replica_share_freq (k : bias_kind) : nat :=
+  match k with
+  | KMeta true f => f
+  | KMeta false _ => 0
+  | KAbf f => f
+  | _ => 0
+  end.
+(* calc_biases: biases_need_main_thread = some ACTIVE bias has replica_share_freq() > 0 (it reads/writes files or MPI) *)
+Definition need_main_thread (active : list bias_kind) : bool := existsb (fun k => Nat.ltb 0 (replica_share_freq k)) active.
+Definition parallel_bias_loop (m : smp_mode) (active : list bias_kind) : bool := parallel_cvc_loop m && negb (need_main_thread active).
+
+Definition step_mode (m : smp_mode) (c : cfg) (t : nat) (oc ob : list nat) (s : store) : store :=
+  if parallel_cvc_loop m then step_smp c t oc ob s else step_serial c t s.
+
+(* `#pragma omp parallel for` with the default (static, no chunk size) schedule on nt threads: contiguous blocks, the first
+   n mod nt threads get one item more (libgomp: q = n / nt, t = n % nt, if (tid < t) { t = 0; q++; } s0 = q * tid + t) *)
+Definition omp_sizes (n nt : nat) : list nat := map (fun t => n / nt + (if Nat.ltb t (n mod nt) then 1 else 0)) (seq 0 nt).
+Fixpoint chunks (sizes : list nat) (start : nat) : list (list nat) :=
+  match sizes with [] => [] | k :: r => seq start k :: chunks r (start + k) end.
+Definition omp_static (n nt : nat) : list (list nat) := chunks (omp_sizes n nt) 0.
+(* the thread of item i *)
+Fixpoint find_thread (i : nat) (qs : list (list nat)) (t : nat) : nat :=
+  match qs with [] => t | q :: r => if existsb (Nat.eqb i) q then t else find_thread i r (S t) end.
+Definition omp_thread_of (n nt i : nat) : nat := find_thread i (omp_static n nt) 0.
